@@ -1306,8 +1306,10 @@ char* string_print_formatted (char *format_str, int argc, svalue_t * argv) {
               else if (finfo & INFO_T_INT)
                 {		/* one of the integer
                                  * types */
-                  char cheat[8];
+                  char cheat[32];	/* '%', a flag, '.', the digits of an int, the conversion */
                   char temp[100];
+                  char *tbuf = temp;
+                  int need;
 
                   *cheat = '%';
                   i = 1;
@@ -1358,16 +1360,32 @@ char* string_print_formatted (char *format_str, int argc, svalue_t * argv) {
                     }
                   cheat[i] = '\0';
 
+                  /* "%f" of 1e300 has 308 characters and the precision is the caller's: measure first */
+                  if (carg->type == T_REAL)
+                    need = snprintf (NULL, 0, cheat, carg->u.real);
+                  else
+                    need = snprintf (NULL, 0, cheat, carg->u.number);
+                  if (need < 0)
+                    sprintf_error (ERR_INVALID_FORMAT_STR);
+                  if (need > USHRT_MAX)
+                    sprintf_error (ERR_BUFF_OVERFLOW);	/* more than the whole result may hold */
+                  if (need >= (int) sizeof (temp))
+                    {
+                      /* (released with the other per-element scratch value below, or by the next call after an error) */
+                      clean.type = T_STRING;
+                      clean.subtype = STRING_MALLOC;
+                      tbuf = clean.u.string = new_string (need, "sprintf: number");
+                    }
                   if (carg->type == T_REAL)
                     {
-                      sprintf (temp, cheat, carg->u.real);
+                      sprintf (tbuf, cheat, carg->u.real);
                     }
                   else
-                    sprintf (temp, cheat, carg->u.number);
+                    sprintf (tbuf, cheat, carg->u.number);
                   {
-                    int tmpl = (int)strlen (temp);
+                    int tmpl = (int)strlen (tbuf);
 
-                    add_justified (temp, tmpl, &pad, fs, finfo,
+                    add_justified (tbuf, tmpl, &pad, fs, finfo,
                                    (((format_str[fpos] != '\n') && (format_str[fpos] != '\0'))
                                     || ((finfo & INFO_ARRAY) && (nelemno < (argv + cur_arg)->u.arr->size))));
                   }
